@@ -105,3 +105,68 @@ def repo_sources_hash(files):
         if os.path.exists(p):
             h.update(open(p, 'rb').read())
     return h.hexdigest()[:16]
+
+
+def library_sources():
+    out = []
+    for d in ('src', 'src/MSSMNoFV', 'src/THDM', 'src/SM'):
+        full = os.path.join(REPO, d)
+        for f in sorted(os.listdir(full)):
+            if f.endswith('.cpp') and f != 'gm2calc.cpp':
+                out.append(os.path.join(full, f))
+    return out
+
+
+def _run(cmd):
+    r = subprocess.run(cmd, capture_output=True, text=True)
+    return r.returncode, r.stderr[-3000:]
+
+
+def build_library(opt='-O1', sanitize=None):
+    """g++ build of the whole library of the working tree as a shared object (for native replays)"""
+    from concurrent.futures import ThreadPoolExecutor
+    tag = 'lib' + (('_' + sanitize) if sanitize else '')
+    d = os.path.join(scratch(), tag)
+    so = os.path.join(d, 'libgm2calc_verif.so')
+    if os.path.exists(so):
+        return so
+    os.makedirs(d, exist_ok=True)
+    cxx = 'g++' if not sanitize else 'clang++-14'
+    flags = ['-std=c++14', opt, '-DNDEBUG', '-fPIC', '-w', '-ffp-contract=off'] + include_flags()
+    if sanitize:
+        flags += ['-fsanitize=' + sanitize, '-fno-omit-frame-pointer']
+    jobs = []
+    objs = []
+    for src in library_sources():
+        obj = os.path.join(d, os.path.relpath(src, REPO).replace('/', '_') + '.o')
+        objs.append(obj)
+        jobs.append([cxx] + flags + ['-c', src, '-o', obj])
+    with ThreadPoolExecutor(max_workers=int(os.environ.get('VERIF_JOBS', '12'))) as ex:
+        res = list(ex.map(_run, jobs))
+    for (rc, err), j in zip(res, jobs):
+        if rc != 0:
+            raise RuntimeError('library build failed: %s\n%s' % (' '.join(j[-3:]), err))
+    rc, err = _run([cxx, '-shared'] + (['-fsanitize=' + sanitize] if sanitize else []) + objs + ['-o', so])
+    if rc != 0:
+        raise RuntimeError('library link failed:\n' + err)
+    return so
+
+
+def library_ir():
+    """textual IR of every library TU (for attribute queries); returns {source: path}"""
+    from concurrent.futures import ThreadPoolExecutor
+    d = os.path.join(scratch(), 'libir')
+    os.makedirs(d, exist_ok=True)
+    jobs = []
+    outs = {}
+    for src in library_sources():
+        out = os.path.join(d, os.path.relpath(src, REPO).replace('/', '_') + '.ll')
+        outs[src] = out
+        if not os.path.exists(out):
+            jobs.append(['clang++-14'] + IR_FLAGS + include_flags() + [src, '-o', out])
+    with ThreadPoolExecutor(max_workers=int(os.environ.get('VERIF_JOBS', '12'))) as ex:
+        res = list(ex.map(_run, jobs))
+    for (rc, err), j in zip(res, jobs):
+        if rc != 0:
+            raise RuntimeError('IR generation failed: %s\n%s' % (j[-3], err))
+    return outs
